@@ -321,19 +321,23 @@ func ZzNewModelReader(src []rune) ybase.Reader { return &verifReader{src: src} }
 // or reordered). The bounded token-string harness names every token differently and cannot
 // reach two metadata pairs; this one can.
 func VerifC04Sentences() {
-	k := vf.NondetIntRange("elements", 1, vf.Param("C04.sentenceElements", 2))
+	k := vf.NondetIntRange("elements", 1, vf.Param("C04.sentenceElements", 3))
 	text := ""
+	// every optional part of a chord (accidental, symbol, bass, bass accidental, metadata) is
+	// present in some elements and absent in others, in every order: a part that is absent must
+	// be absent in the tree, whatever an earlier element carried
+	elems := []string{"C", "Bb", "C#_m7/C#", "D_m", "E/G#", "R"}
+	metas := []string{"", "{a=x}", "{a=x,a=y}", "{a=x,b=y,a=x}", "{a=x,a=x}", "{a=a,x=x,a=a,x=a}"}
 	for i := 0; i < k; i++ {
-		switch vf.NondetIntRange("element", 0, 2) {
-		case 0:
-			text += "C"
-		case 1:
-			text += "C#_m7/C#"
-		default:
-			text += "R"
+		text += elems[vf.NondetIntRange("element", 0, len(elems)-1)]
+		if k <= 2 {
+			text += []string{"[1]", "[1,1,1/1]"}[vf.NondetIntRange("values", 0, 1)]
+			text += metas[vf.NondetIntRange("meta", 0, len(metas)-1)]
+		} else {
+			// three elements: a reduced choice of durations and metadata keeps the product small
+			text += "[1]"
+			text += metas[vf.NondetIntRange("meta", 0, 1)]
 		}
-		text += []string{"[1]", "[1,1,1/1]"}[vf.NondetIntRange("values", 0, 1)]
-		text += []string{"", "{a=x}", "{a=x,a=y}", "{a=x,b=y,a=x}", "{a=x,a=x}", "{a=a,x=x,a=a,x=a}"}[vf.NondetIntRange("meta", 0, 5)]
 		text += " "
 	}
 	src := []rune(text)
